@@ -452,3 +452,42 @@ def poison_midrun(which, kind: int, c0: int, c1: int, c2: int, c3: int):
 
 
 SCN["poison_midrun"] = (["0 <= kind < 4"], 300, 600, ("quick", "thorough"))
+
+
+def fan_retry_inner_retry(which, kind: int, nfail: int, c0: int, c1: int, c2: int, c3: int, c4: int, c5: int):
+    """A Parallel (kind 0) / Map (kind 1) state with its own Retry (MaxAttempts 1) whose branch Task has a Retry
+    (MaxAttempts 1) too; the task fails its first `nfail` invocations. The retry budgets are per state: the inner
+    Task gets 2 attempts per attempt of the fan-out state, the fan-out state gets 2 attempts."""
+    inner_retry = [{"ErrorEquals": ["Boom"], "IntervalSeconds": 1, "MaxAttempts": 1, "BackoffRate": 1.0}]
+    outer_retry = [{"ErrorEquals": ["Boom"], "IntervalSeconds": 3, "MaxAttempts": 1, "BackoffRate": 1.0}]
+    A = {"StartAt": "A", "States": {"A": task("fa", End=True, Retry=inner_retry)}}
+    if kind == 0:
+        st = {"Type": "Parallel", "End": True, "Retry": outer_retry, "Branches": [A, {"StartAt": "B", "States": {"B": {"Type": "Pass", "Result": "b", "End": True}}}]}
+        data = {"x": 1}
+    else:
+        st = {"Type": "Map", "ItemsPath": "$.items", "End": True, "Retry": outer_retry, "Iterator": A}
+        data = {"items": [{"i": 0}]}
+    asl = {"StartAt": "P", "States": {"P": st}}
+    n = [0]; times = []
+
+    def wa(req):
+        n[0] += 1
+        times.append(stubs.CLOCK.now - 1_700_000_000.0)
+        if n[0] <= nfail:
+            return {"errorType": "Boom", "errorMessage": "attempt %d" % n[0]}
+        return {"ok": "fa"}
+    sched = [0.0, 1.0, 4.0, 5.0]
+    att = min(nfail, 3) + 1
+
+    def chk(run, inst, mon):
+        if times != sched[:att]:
+            return "C07 task requested at %s, expected %s (inner budget 2 attempts per attempt of the fan-out state, fan-out budget 2)" % (times, sched[:att])
+        return ""
+    if nfail >= 4:
+        expect = ("FAILED", "Boom")
+    else:
+        expect = ("SUCCEEDED", [{"ok": "fa"}, "b"] if kind == 0 else [{"ok": "fa"}])
+    return s2.run_scenario(asl, data, [c0, c1, c2, c3, c4, c5], {"fa": wa}, which, "STANDARD", expect, extra_check=chk, max_steps=160)
+
+
+SCN["fan_retry_inner_retry"] = (["0 <= kind < 2 and 0 <= nfail <= 4"], 600, 1800, ("quick", "thorough"))
